@@ -603,6 +603,33 @@ def r14_alias_never_replaces_a_real_binding(ctx):
            'the binding keyed by the dependency\'s own type is written with %s' % sorted({w[2] for w in ex}))
 
 
+def r16_every_bound_value_can_be_borrowed_mutably(ctx):
+    ctx.rule('C01.R16', 'P9 sibling agreement on the `let` templates of the call-graph code generator (`quote!` read from MIR): a value bound by '
+             '`_codegen_callable_closure_body` may be the target of an ExclusiveBorrow edge, and the consumer then renders `&mut <var>`. Every `let <var> = ..` template '
+             'of that function therefore interpolates the maybe-`mut` token (`Option<TokenStream>`) between `let` and the variable, as the template for computed '
+             'values does; the template that binds the `Ok` value of a fallible constructor (`let <ok> = match <result> { .. }`) must not be the exception, or '
+             '`fn handler(a: &mut A)` with a fallible request-scoped `A` is accepted and the generated code fails with E0596.')
+    bodies = [b for b in ctx.fb.bodies('pavexc') if not b.is_promoted and b.nroot.endswith('call_graph::codegen::_codegen_callable_closure_body')]
+    if not ctx.need('C01.R16', '_codegen_callable_closure_body', bodies):
+        return
+    n = 0
+    for b in bodies:
+        for ch in chains(b):
+            toks = [tok for _, tok in ch]
+            for i, tok in enumerate(toks):
+                if tok != ('ident', 'let') or i + 2 >= len(toks):
+                    continue
+                nxt = toks[i + 1]
+                if nxt[0] != 'interp':
+                    continue
+                n += 1
+                has_mut = 'Option<proc_macro2::TokenStream>' in nxt[2] or (nxt[0] == 'ident' and nxt[1] == 'mut')
+                kind = 'match' if ('ident', 'match') in toks[i:i + 6] else 'value'
+                ctx.ob('C01.R16', 'let-template-allows-mut|%s' % kind, has_mut, b.loc(ch[i][0]),
+                       'the `let` template (%s) %s the maybe-`mut` token before the variable' % (kind, 'interpolates' if has_mut else 'does NOT interpolate'))
+    ctx.floor('C01.R16', '`let` templates in _codegen_callable_closure_body', n, 2)
+
+
 def check(ctx):
     from .persist_common import writer_replaces_the_whole_file
     writer_replaces_the_whole_file(ctx, 'C01.R15', 'shared with C10.R10: ')
